@@ -64,6 +64,15 @@ type c09Inst struct {
 	op        *operator.Operator
 	deployReq *workerpb.DeployOperatorRequest
 	srcDocs   []string // documents the deploy reads (relative paths)
+	host      *c09Host
+	// hosted instances: the tables loaded at the deploy, and whose cleanup has run
+	loadedSet, cleaned map[string]bool
+}
+
+// c09Host: which instance (and assembly generation) the operator object serves now; the neighbour stubs its
+// HandleDeploy creates ask on behalf of that instance
+type c09Host struct {
+	gen, idx int
 }
 
 // c09DrainScan reads a held scan to its end. Stopping it early instead would leave the tables pinned for ever:
@@ -107,7 +116,9 @@ type c09World struct {
 	insts    []*c09Inst
 	grave    []*dkv.DB // crashed instances: their objects must never run cleanups during the case
 	cleanups []string
-	closed   bool
+	// loaded-table cleanups whose decision the ownership wrapper has already recorded (the hook point follows it)
+	wrapped map[string]int
+	closed  bool
 	retained []c09Handle
 	nextID   uint64
 	// a NeedsTable call of the harness parked between its two reads (hook dkv.needstable.between)
@@ -331,6 +342,10 @@ func (o *c09Ownership) ExclusivelyOwnsTable(uri string, startKey, endKey []byte)
 		o.w.mu.Lock()
 		if !o.w.closed {
 			o.w.cleanups = append(o.w.cleanups, fmt.Sprintf("%d:%s:l:%s", o.idx, o.w.canon(uri), d))
+			if o.w.wrapped == nil {
+				o.w.wrapped = map[string]int{}
+			}
+			o.w.wrapped[uri]++
 		}
 		o.w.mu.Unlock()
 	}
@@ -380,6 +395,30 @@ func (w *c09World) hook(label string, payload []any) {
 		}
 		uri, _ := payload[0].(string)
 		kind, _ := payload[1].(string)
+		if kind == "loaded" && strings.HasPrefix(uri, w.prefix) && len(payload) >= 3 {
+			// an instance served by a real operator.Operator has the operator's own data ownership (no wrapper): the
+			// decision of its cleanup is read here and attributed to the first such instance that loaded the table and
+			// has not run this cleanup yet
+			can, _ := payload[2].(bool)
+			w.mu.Lock()
+			if w.wrapped[uri] > 0 {
+				w.wrapped[uri]--
+			} else if !w.closed {
+				for _, x := range w.insts {
+					if x.host != nil && x.loadedSet[uri] && !x.cleaned[uri] {
+						x.cleaned[uri] = true
+						d := "keep"
+						if can {
+							d = "del"
+						}
+						w.cleanups = append(w.cleanups, fmt.Sprintf("%d:%s:l:%s", x.idx, w.canon(uri), d))
+						break
+					}
+				}
+			}
+			w.mu.Unlock()
+			return
+		}
 		if kind != "created" || !strings.HasPrefix(uri, w.prefix) {
 			return
 		}
@@ -781,10 +820,12 @@ func runC09(c lib.Case) []string {
 						}
 						nodes = append(nodes, &jobpb.NodeIdentity{Id: id, Host: id})
 					}
+					host := &c09Host{gen: gen, idx: idx}
+					x.host = host
 					op := operator.NewOperator(operator.NewOperatorParams{ID: fmt.Sprintf("i%d", idx), Host: "h",
 						NeighborOperatorFactory: func(sender string, node *jobpb.NodeIdentity) proto.Operator {
 							a, b := c09ParseRange(strings.TrimPrefix(node.Id, "nb"))
-							return &c09Neighbor{w: w, gen: gen, r: partitioning.KeyGroupRange{Start: a, End: b}, asker: idx}
+							return &c09Neighbor{w: w, gen: host.gen, r: partitioning.KeyGroupRange{Start: a, End: b}, asker: host.idx}
 						}})
 					req := &workerpb.DeployOperatorRequest{Operators: nodes, SourceRunnerIds: []string{"src"}, KeyGroupCount: 8,
 						StorageLocation: w.store.location()}
@@ -793,8 +834,10 @@ func runC09(c lib.Case) []string {
 							OperatorId: fmt.Sprintf("i%d", wi), DkvFileUri: w.prefix + fmt.Sprintf("i%d/checkpoints", w.dirOf(wi))})
 						x.srcDocs = append(x.srcDocs, fmt.Sprintf("i%d/checkpoints", w.dirOf(wi)))
 					}
+					x.loadedSet, x.cleaned = map[string]bool{}, map[string]bool{}
 					for _, t := range preTabs {
 						x.known[t] = true
+						x.loadedSet[t] = true
 					}
 					w.mu.Lock()
 					x.op, x.deployReq = op, req
@@ -870,14 +913,7 @@ func runC09(c lib.Case) []string {
 				}
 				sort.Strings(wals)
 				x.ckptIDs = []uint64{fromID}
-				// the job abandons newer checkpoints of writers that are gone
-				var keep []c09Handle
-				for _, h := range w.retained {
-					if h.id <= fromID || (h.writer < len(w.insts) && w.insts[h.writer].alive) {
-						keep = append(keep, h)
-					}
-				}
-				w.retained = keep
+				// the job's retained set is the job's: a restart drops nothing (jobdrop / jobabandon do)
 			}
 			w.mu.Lock()
 			ev := x.events
@@ -1117,6 +1153,16 @@ func runC09(c lib.Case) []string {
 			}
 			w.retained = keep
 			out = append(out, "ok")
+		case "jobabandon": // jobabandon <id> : the job gives up checkpoint <id> (never completed / rolled back past)
+			id, _ := strconv.ParseUint(f[1], 10, 64)
+			var keep []c09Handle
+			for _, h := range w.retained {
+				if h.id != id {
+					keep = append(keep, h)
+				}
+			}
+			w.retained = keep
+			out = append(out, "ok")
 		case "retain": // retain <i> <id,id>
 			x := inst(f[1])
 			if len(f) < 3 {
@@ -1315,6 +1361,108 @@ func runC09(c lib.Case) []string {
 			x.db = nil
 			w.mu.Unlock()
 			out = append(out, "ok")
+		case "redeploy": // redeploy <i> gen=<g> from=<w+w>:<id> : a second, successful HandleDeploy on the operator serving <i>
+			// (same assembly, new generation): the real entry point closes the database it had, reopens the operator's
+			// directory from the given handles and replaces o.db; the instance it had is dropped inside the living process
+			x := inst(f[1])
+			if x == nil || !x.alive || x.db == nil || x.op == nil || x.host == nil {
+				out = append(out, "not-alive")
+				continue
+			}
+			p := strings.SplitN(c09Field(f, "from"), ":", 2)
+			if len(p) != 2 {
+				out = append(out, "bad-op")
+				continue
+			}
+			newGen, _ := strconv.Atoi(c09Field(f, "gen"))
+			fromID, _ := strconv.ParseUint(p[1], 10, 64)
+			var fromWs []int
+			okAll, lost := true, false
+			for _, ws := range strings.Split(p[0], "+") {
+				wi, _ := strconv.Atoi(ws)
+				fromWs = append(fromWs, wi)
+				_, uris, wals, ok := w.docEntry(wi, fromID)
+				if !ok {
+					okAll = false
+				}
+				for _, u := range append(uris, wals...) {
+					if !w.store.exists(u) {
+						lost = true
+					}
+				}
+			}
+			if !okAll {
+				out = append(out, "no-such-checkpoint")
+				continue
+			}
+			if lost {
+				out = append(out, "files-missing")
+				continue
+			}
+			idx := len(w.insts)
+			nx := &c09Inst{idx: idx, gen: newGen, lo: x.lo, hi: x.hi, alive: true, mode: "truthful", known: map[string]bool{}, dir: x.dir,
+				op: x.op, host: x.host, loadedSet: map[string]bool{}, cleaned: map[string]bool{}}
+			req := &workerpb.DeployOperatorRequest{Operators: x.deployReq.Operators, SourceRunnerIds: x.deployReq.SourceRunnerIds,
+				KeyGroupCount: x.deployReq.KeyGroupCount, StorageLocation: x.deployReq.StorageLocation}
+			var tabs, wals []string
+			for _, wi := range fromWs {
+				req.Checkpoints = append(req.Checkpoints, &snapshotpb.OperatorCheckpoint{CheckpointId: fromID,
+					OperatorId: fmt.Sprintf("i%d", wi), DkvFileUri: w.prefix + fmt.Sprintf("i%d/checkpoints", w.dirOf(wi))})
+				nx.srcDocs = append(nx.srcDocs, fmt.Sprintf("i%d/checkpoints", w.dirOf(wi)))
+				ts, _, ws, _ := w.docEntry(wi, fromID)
+				tabs = append(tabs, ts...)
+				wals = append(wals, ws...)
+				for _, t := range ts {
+					nx.known[w.prefix+t[:strings.Index(t, ":")]] = true
+					nx.loadedSet[w.prefix+t[:strings.Index(t, ":")]] = true
+				}
+			}
+			nx.deployReq = req
+			oldGen, oldIdx := x.host.gen, x.host.idx
+			w.mu.Lock()
+			x.host.gen, x.host.idx = newGen, idx
+			w.insts = append(w.insts, nx)
+			w.mu.Unlock()
+			res := c09Guard(func() string {
+				if err := x.op.HandleDeploy(context.Background(), req, nil); err != nil {
+					return "err " + strings.ReplaceAll(err.Error(), " ", "_")
+				}
+				return ""
+			})
+			if res != "" {
+				w.mu.Lock()
+				x.host.gen, x.host.idx = oldGen, oldIdx
+				w.insts = w.insts[:idx]
+				w.mu.Unlock()
+				out = append(out, res)
+				continue
+			}
+			w.mu.Lock()
+			// the instance the operator had is dropped inside the living process
+			snaps := x.snaps
+			x.snaps, x.alive, x.db, x.op = nil, false, nil, nil
+			nx.db = nx.op.VerifDB()
+			nx.ckptIDs = []uint64{fromID}
+			w.mu.Unlock()
+			for _, sn := range snaps {
+				c09DrainScan(sn)
+			}
+			if nx.db == nil {
+				out = append(out, "err no-db")
+				continue
+			}
+			nx.db.WaitOnTasks()
+			sort.Strings(tabs)
+			sort.Strings(wals)
+			w.mu.Lock()
+			ev := nx.events
+			nx.events = nil
+			w.mu.Unlock()
+			evs := "-"
+			if len(ev) > 0 {
+				evs = strings.Join(ev, ";")
+			}
+			out = append(out, fmt.Sprintf("ok %d tables=%s wals=%s ev=%s", idx, c09Join(tabs), c09Join(wals), evs))
 		case "redeployfail": // redeployfail <i> : the operator serving <i> is deployed again, and the load fails
 			x := inst(f[1])
 			if x == nil || !x.alive || x.db == nil {
@@ -1540,21 +1688,6 @@ func (g *c09Gen) open(lo, hi, gen int, nbrs []string, from string, fromID int, h
 	x := &c09GenInst{alive: true, gen: gen, lo: lo, hi: hi, hosted: host, dir: dir}
 	if from != "none" {
 		x.ckpts = []int{fromID}
-		for id, ws := range g.handles {
-			if id > fromID {
-				var keep []int
-				for _, wi := range ws {
-					if g.insts[wi].alive {
-						keep = append(keep, wi)
-					}
-				}
-				if len(keep) == 0 {
-					delete(g.handles, id)
-				} else {
-					g.handles[id] = keep
-				}
-			}
-		}
 	}
 	g.insts = append(g.insts, x)
 	switch {
@@ -1600,6 +1733,48 @@ func (g *c09Gen) ckptAll(gen int) int {
 		}
 	}
 	return id
+}
+
+// abandonNewer: before the assembly restarts from checkpoint `id` the job gives up every newer checkpoint it has
+// handles of (they were taken by some operators only and never completed)
+func (g *c09Gen) abandonNewer(id int) {
+	var ids []int
+	for k := range g.handles {
+		if k > id {
+			ids = append(ids, k)
+		}
+	}
+	sort.Ints(ids)
+	for _, k := range ids {
+		delete(g.handles, k)
+		g.emit("jobabandon %d", k)
+	}
+}
+
+// completeIDs: the job checkpoints every member of generation `gen` has taken, oldest first
+func (g *c09Gen) completeIDs(gen int) []int {
+	var out []int
+	for id, writers := range g.handles {
+		okAll := true
+		for i, x := range g.insts {
+			if x.gen == gen {
+				found := false
+				for _, wi := range writers {
+					if wi == i {
+						found = true
+					}
+				}
+				if !found {
+					okAll = false
+				}
+			}
+		}
+		if okAll {
+			out = append(out, id)
+		}
+	}
+	sort.Ints(out)
+	return out
 }
 
 func (g *c09Gen) jobdrop(k int) {
@@ -1818,7 +1993,73 @@ func genC09(r *lib.Rng, tier string) lib.Case {
 		if id < 0 {
 			break
 		}
-		inProcess := r.Chance(1, 4)
+		// D68's situation (generated only while D68 is listed as an open finding of C09): the job rolls back to an OLDER
+		// complete checkpoint and keeps retaining the newer complete ones; every new instance gets a directory of its own
+		// (the same-directory sibling is C08's D67) and the processes of the old assembly are gone.
+		// EXCLUDED from generated cases otherwise: a restart from a retained checkpoint that is not the newest one.
+		rollback := false
+		if cids := g.completeIDs(gen); c09D68Listed && len(cids) > 1 && r.Chance(1, 6) {
+			id = cids[r.Intn(len(cids)-1)]
+			writers = append([]int(nil), g.handles[id]...)
+			sort.Ints(writers)
+			rollback = true
+			// what was never completed is given up; the complete newer checkpoints stay retained
+			for k := range g.handles {
+				if k > id {
+					complete := false
+					for _, c := range cids {
+						if c == k {
+							complete = true
+						}
+					}
+					if !complete {
+						delete(g.handles, k)
+						g.emit("jobabandon %d", k)
+					}
+				}
+			}
+		} else {
+			g.abandonNewer(id)
+		}
+		// a live redeploy of the same assembly: every operator process survives and is deployed again, from its own
+		// checkpoint, in its own directory. Operators served by a real operator.Operator go through the real entry point
+		// (a second, successful HandleDeploy); the others are released and reopened like HandleDeploy does it.
+		anyHosted := false
+		for _, i := range g.alive() {
+			anyHosted = anyHosted || g.insts[i].hosted
+		}
+		if al := g.alive(); !rollback && len(al) == len(writers) && (r.Chance(1, 5) || (anyHosted && r.Chance(1, 2))) {
+			same := true
+			for k, i := range al {
+				same = same && writers[k] == i
+			}
+			if same {
+				if !c09D50Listed {
+					g.jobdrop(id - 1)
+				}
+				var rs [][2]int
+				for _, i := range al {
+					rs = append(rs, [2]int{g.insts[i].lo, g.insts[i].hi})
+				}
+				for k, i := range al {
+					x := g.insts[i]
+					x.alive = false
+					nx := &c09GenInst{alive: true, gen: gen + 1, lo: x.lo, hi: x.hi, hosted: x.hosted, dir: x.dir, ckpts: []int{id}}
+					if x.hosted {
+						g.emit("redeploy %d gen=%d from=%d:%d", i, gen+1, i, id)
+					} else {
+						g.emit("release %d", i)
+						g.emit("open %d-%d gen=%d nbrs=%s from=%d:%d dir=%d", x.lo, x.hi, gen+1, c09Join(g.nbrsOf(rs, k)), i, id, x.dir)
+					}
+					g.insts = append(g.insts, nx)
+					if r.Chance(1, 3) {
+						g.observe()
+					}
+				}
+				continue
+			}
+		}
+		inProcess := r.Chance(1, 4) && !rollback
 		for _, i := range g.alive() {
 			if g.insts[i].hosted {
 				inProcess = false // an operator keeps its database; only whole processes of operators go away here
@@ -1861,10 +2102,10 @@ func genC09(r *lib.Rng, tier string) lib.Case {
 				src[0], src[r2] = src[r2], src[0]
 				srcIdx[0], srcIdx[r2] = srcIdx[r2], srcIdx[0]
 			}
-			host := local && (m == 1 || m == 2 || m == 4) && m == len(nrs) && c09Even(nrs) && r.Chance(1, 2)
+			host := local && (m == 1 || m == 2 || m == 4) && m == len(nrs) && c09Even(nrs) && r.Chance(1, 2) && !rollback
 			// the operator keeps its id: the new instance lives in the directory of one of the instances it restores from
 			dir := -1
-			if !host && r.Chance(1, 3) {
+			if !host && !rollback && r.Chance(1, 3) {
 				d := g.insts[lib.Pick(r, srcIdx)].dir
 				if !dirTaken[d] {
 					dir = d
@@ -1902,6 +2143,9 @@ func genC09(r *lib.Rng, tier string) lib.Case {
 // c09D50Listed: known_findings.json lists D50 as an open finding of C09 (set in propC09 from the -verif flag)
 var c09D50Listed bool
 
+// c09D68Listed: likewise for D68 (restart from a retained checkpoint that is not the newest retained one)
+var c09D68Listed bool
+
 func c09FindingListed(id string) bool {
 	dir := "/verif"
 	if f := flag.Lookup("verif"); f != nil {
@@ -1923,6 +2167,25 @@ func c09Fixed(tier string) []lib.Case {
 		cases = append(cases, lib.Case{Header: "M C09 mem=120 l0=2", Tags: []string{"witness-D50"}, Ops: []string{
 			"open 0-8 gen=0 nbrs=- from=none", "write 0 8 1 0-7", "ckpt 0 1", "write 0 8 2 0-7", "ckpt 0 2", "crash 0",
 			"open 0-8 gen=1 nbrs=- from=0:2 dir=0", "missing", "write 1 8 3 0-7", "ckpt 1 3", "missing"}})
+	}
+	if c09D68Listed {
+		// D68 witness: the job retains checkpoints 1 and 2 of instance 0; the operator is restarted in a directory of its
+		// own from the OLDER one; the restarted instance compacts the restored tables away, the job drops checkpoint 1
+		// only, the retention update (job's list: 2,3) drops the restored checkpoint and the collection deletes the
+		// tables checkpoint 2 still references
+		cases = append(cases, lib.Case{Header: "M C09 mem=120 l0=1", Tags: []string{"witness-D68"}, Ops: []string{
+			"open 0-8 gen=0 nbrs=- from=none", "write 0 12 1 0-7", "ckpt 0 1", "ckpt 0 2", "crash 0",
+			"open 0-8 gen=1 nbrs=- from=0:1", "write 1 14 2 0-7", "write 1 14 3 0-7", "ckpt 1 3", "jobdrop 1", "retain 1 2,3",
+			"gc", "files", "missing"}})
+		// D68 as the C01 corpus trace sstables-file-not-found-fresh-only reaches it: instance 1 restores from checkpoint
+		// 2 and takes checkpoint 3 (which still lists the tables loaded from 0), dies; checkpoint 3 is published late, so
+		// instance 2 restores from 2 again; it takes 5, the job's retention list is [3], instance 2 drops the restored
+		// checkpoint and deletes the tables checkpoint 3 references; the next restore, from 3, finds them gone
+		cases = append(cases, lib.Case{Header: "M C09 mem=120 l0=1", Tags: []string{"witness-D68"}, Ops: []string{
+			"open 0-8 gen=0 nbrs=- from=none", "write 0 12 1 0-7", "ckpt 0 1", "ckpt 0 2", "jobdrop 1", "retain 0 2", "crash 0",
+			"open 0-8 gen=1 nbrs=- from=0:2", "ckpt 1 3", "crash 1",
+			"open 0-8 gen=2 nbrs=- from=0:2", "write 2 14 3 0-7", "write 2 14 4 0-7", "ckpt 2 5", "jobdrop 2", "retain 2 3",
+			"gc", "files", "missing", "open 0-8 gen=3 nbrs=- from=1:3"}})
 	}
 	if tier == "thorough" {
 		// a neighbour that needs the table answers only after 6.5 s: with the unchanged code the cleanup waits and
@@ -1966,6 +2229,20 @@ func c09FixedAll() []lib.Case {
 			"open 0-8 gen=0 nbrs=- from=none", "write 0 12 7 0-7", "ckpt 0 1", "crash 0",
 			"open 0-4 gen=1 nbrs=4-8 from=0:1", "open 4-8 gen=1 nbrs=0-4 from=0:1",
 			"write 1 14 8 0-3", "write 1 14 9 0-3", "ckpt 1 2", "ckpt 2 2", "jobdrop 1", "retain 2 2", "retain 1 2", "gc", "files", "missing"}},
+		// a second, successful HandleDeploy on the same operator.Operator (the real entry point of an in-process
+		// redeploy: Close, reopen the same directory from the operator's own newest checkpoint, replace o.db): the
+		// instance the operator had is garbage afterwards and its table objects delete their files (D25, reached here
+		// through Operator.HandleDeploy itself)
+		{Header: "M C09 mem=120 l0=1 fs=local", Tags: []string{"redeploy-real"}, Ops: []string{
+			"open 0-8 gen=0 nbrs=- from=none", "write 0 12 7 0-7", "ckpt 0 1", "crash 0",
+			"open 0-8 gen=1 nbrs=- from=0:1 host=op", "write 1 8 2 0-7", "ckpt 1 2", "jobdrop 1", "retain 1 2",
+			"redeploy 1 gen=2 from=1:2", "files", "missing", "write 2 8 3 0-7", "ckpt 2 3", "gc", "files", "missing"}},
+		// the same with a neighbour: operator 2 (key groups 4-8) is redeployed while instance 1 keeps running and asks it
+		{Header: "M C09 mem=120 l0=1 fs=local", Tags: []string{"redeploy-real"}, Ops: []string{
+			"open 0-8 gen=0 nbrs=- from=none", "write 0 12 7 0-7", "ckpt 0 1", "crash 0",
+			"open 0-4 gen=1 nbrs=4-8 from=0:1", "open 4-8 gen=1 nbrs=0-4 from=0:1 host=op", "ckpt 1 2", "ckpt 2 2", "jobdrop 1",
+			"redeploy 2 gen=1 from=2:2", "write 1 14 8 0-3", "write 1 14 9 0-3", "retain 1 2", "gc", "files", "missing",
+			"retain 3 2", "gc", "files", "missing"}},
 		// D25 (open): in-process redeploy — the released instance's tables are deleted under the restored one
 		{Header: "M C09 mem=120 l0=2", Tags: []string{"witness-D25"}, Ops: []string{
 			"open 0-8 gen=0 nbrs=- from=none", "write 0 12 7 0-7", "ckpt 0 1", "release 0",
@@ -2008,6 +2285,7 @@ func c09FixedAll() []lib.Case {
 
 func propC09() *lib.Prop {
 	c09D50Listed = c09FindingListed("D50")
+	c09D68Listed = c09FindingListed("D68")
 	return &lib.Prop{
 		ID:       "C09",
 		Corr:     "Model/Files.lean transition system ↔ real dkv.DB instances (table cleanups under forced GC, CheckpointList retention, OperatorPartition.ExclusivelyOwnsTable with scripted/real neighbours)",
@@ -2031,7 +2309,7 @@ func propC09() *lib.Prop {
 			return false
 		},
 		MObs: func(op string) bool {
-			return strings.HasPrefix(op, "write ") || strings.HasPrefix(op, "open ") || strings.HasPrefix(op, "ckpt ") || strings.HasPrefix(op, "asksplit ") ||
+			return strings.HasPrefix(op, "write ") || strings.HasPrefix(op, "open ") || strings.HasPrefix(op, "redeploy ") || strings.HasPrefix(op, "ckpt ") || strings.HasPrefix(op, "asksplit ") ||
 				strings.HasPrefix(op, "writehold ") || strings.HasPrefix(op, "writeflush ") || op == "ungate"
 		},
 	}
